@@ -242,15 +242,37 @@ def read_private_rule(ctx: Ctx, src: Path) -> dict:
     op, thr, fname = ctx.version_test(vt)
     if [ast.unparse(s) for s in body[0].body] != ["json_type = json_type[:-1]"]:
         raise Untranslatable("add_private_json: body of the if is not `json_type = json_type[:-1]`")
-    if ast.unparse(body[1]) != "self.jsons[f'{json_type}/{self.private_name}/{name}'] = json":
+    store = store_shapes(tree)
+    if ast.unparse(body[1]) not in store("f'{json_type}/{self.private_name}/{name}'"):
         raise Untranslatable(f"add_private_json: key assignment is {ast.unparse(body[1])}")
     fn2 = find_fn(tree, "DataPack.add_json")
     if [a.arg for a in fn2.args.args] != ["self", "json_type", "name", "json"]:
         raise Untranslatable("add_json parameters")
     b2 = body_no_doc(fn2)
-    if [ast.unparse(s) for s in b2] != ["self.jsons[f'{json_type}/{name}'] = json"]:
+    if len(b2) != 1 or ast.unparse(b2[0]) not in store("f'{json_type}/{name}'"):
         raise Untranslatable(f"add_json body is {[ast.unparse(s) for s in b2]}")
     return {"op": op, "thr": thr, "feature": fname}
+
+
+def store_shapes(tree):
+    """accepted spellings of `store <json> under key <k>`: the direct dict store, or a private helper
+    `__add_json(self, json_path, json)` whose body is `if …: raise …` statements followed by `self.jsons[json_path] = json`"""
+    helper_ok = False
+    try:
+        h = find_fn(tree, "DataPack.__add_json")
+        hb = body_no_doc(h)
+        if [a.arg for a in h.args.args] == ["self", "json_path", "json"] and hb and ast.unparse(hb[-1]) == "self.jsons[json_path] = json" \
+                and all(isinstance(st, ast.If) and not st.orelse and all(isinstance(x, ast.Raise) for x in st.body) for st in hb[:-1]):
+            helper_ok = True
+    except Untranslatable:
+        pass
+
+    def shapes(key_expr: str) -> list[str]:
+        out = [f"self.jsons[{key_expr}] = json"]
+        if helper_ok:
+            out.append(f"self.__add_json({key_expr}, json)")
+        return out
+    return shapes
 
 
 def first_arg(call: ast.Call) -> ast.AST:
@@ -479,6 +501,31 @@ def read_gates(ctx: Ctx, src: Path) -> tuple[list[dict], list[str]]:
     return gates, [g["label"] for g in unmapped]
 
 
+def read_strategy(ctx: Ctx, src: Path) -> list[dict]:
+    """`is_macro_switch(datapack)`: `return version >= X and not Header().force_bst`; in `switch`, the n-th
+    `if not is_macro_switch(datapack): raise …` guards sparse labels (0) / default (1).  Absent in older trees."""
+    rel = "compile/command/_flow_control.py"
+    tree = ast.parse((src / rel).read_text())
+    try:
+        fn = find_fn(tree, "is_macro_switch")
+    except Untranslatable:
+        return []
+    b = body_no_doc(fn)
+    if not (len(b) == 1 and isinstance(b[0], ast.Return) and isinstance(b[0].value, ast.BoolOp) and isinstance(b[0].value.op, ast.And)
+            and len(b[0].value.values) == 2 and ast.unparse(b[0].value.values[1]) == "not Header().force_bst"):
+        raise Untranslatable(f"is_macro_switch: {ast.unparse(b[0]) if b else ''}")
+    op, thr, fname = ctx.version_test(b[0].value.values[0])
+    sw = find_fn(tree, "switch")
+    guards = [n for n in ast.walk(sw) if isinstance(n, ast.If) and ast.unparse(n.test) == "not is_macro_switch(datapack)"
+              and all(isinstance(x, ast.Raise) for x in n.body) and not n.orelse]
+    guards.sort(key=lambda n: n.lineno)
+    uses = [n for n in ast.walk(sw) if isinstance(n, ast.Call) and isinstance(n.func, ast.Name) and n.func.id == "is_macro_switch"]
+    if len(guards) != 2 or len(uses) != 2:
+        raise Untranslatable(f"switch: {len(guards)} `if not is_macro_switch(datapack): raise` guards, {len(uses)} uses (expected 2, 2)")
+    return [dict(label=f"{rel}:switch#strategy{i}", feature=f, op=op, thr=thr, line=g.lineno)
+            for i, (g, f) in enumerate(zip(guards, ("FSwitchSparse", "FSwitchDefault")))]
+
+
 def translate(repo: Path) -> dict:
     src = Path(repo) / "src" / "jmc"
     features = read_features(src)
@@ -487,7 +534,8 @@ def translate(repo: Path) -> dict:
     rule = read_private_rule(ctx, src)
     sites = read_json_sites(ctx, src) + read_build(ctx, src) + read_lookups(ctx, src)
     gates, unmapped = read_gates(ctx, src)
-    return dict(features=features, formats=formats, rule=rule, sites=sites, gates=gates, unmapped_gates=unmapped)
+    return dict(features=features, formats=formats, rule=rule, sites=sites, gates=gates, unmapped_gates=unmapped,
+                sgates=read_strategy(ctx, src))
 
 
 # ----------------------------------------------------------------------------- Coq output
@@ -527,6 +575,9 @@ def coq_text(t: dict) -> str:
     L.append("Definition gates : list gate := [")
     L.append(";\n".join(f"  mkGate {cstr(g['label'])} {g['feature']} {cz(g['thr'])} {'true' if g['lower'] else 'false'}"
                         for g in t["gates"]))
+    L.append("].")
+    L.append("Definition sgates : list sgate := [")
+    L.append(";\n".join(f"  mkSGate {cstr(g['label'])} {g['feature']} {g['op']} {cz(g['thr'])}" for g in t["sgates"]))
     L.append("].")
     return "\n".join(L) + "\n"
 
